@@ -61,6 +61,14 @@ FRAGMENT_HISTORY = [
                                "vec result": 78, "same let re-declared in two match clauses": 45, "node:go": 40,
                                "call:user-fn-args": 26, "call:string_len": 20, "if:type": 11, "float literal": 10,
                                "go-const-expr (operation on literals, not exact)": 9}},
+    {"stage": "+ Vec (vec_new / vec_push / vec_get / vec_len, Vec parameters / results / fields) under the "
+              "no-spare-capacity append policy (capPolicy = 0); the value relation became a type-directed relation "
+              "(VRel) over a heap context with immutable cells",
+     "inside": 5440, "functions": 6160,
+     "first_reasons_outside": {"callee outside": 229, "node:to-dyn": 217, "same let re-declared in two match clauses": 77,
+                               "node:go": 48, "call:user-fn-args": 27, "call:string_len": 24,
+                               "go-const-expr (operation on literals, not exact)": 12, "if:type": 12,
+                               "float literal": 10, "dyn parameter": 10, "match:literal-arms": 9}},
 ]
 
 
